@@ -1,16 +1,19 @@
 prop("C13", pkg="c13",
-     rule="Each rapid case is one of: 'writer' (30%) - a random content tree (struct body with ascending positive ids from the seven gap classes, every thrift type, "
+     rule="Each rapid case is one of: 'wseq' (18%) - 2-7 items written one after the other on ONE Writer: message headers (several per sequence, the last item always "
+          "one, seqids up to 2^31-1) interleaved with values whose fixed-width big-endian bytes are all non-zero (i16/i32/i64/double patterns such as 0x12345678), strings of "
+          "length 256..74565 (2- and 3-byte lengths) and small random trees, the whole byte stream compared with the concatenated thriftspec bytes (catches state leaking "
+          "between calls through the Writer's scratch buffer); 'writer' (18%) - a random content tree (struct body with ascending positive ids from the seven gap classes, every thrift type, "
           "containers of 0/1/2/3/14/15/16/127/128 elements, integers at every zig-zag/width boundary, special doubles, strings up to 300 bytes, optional message header "
           "with types Call..Oneway, seqids at varint boundaries) rendered through the package's Writer methods with the struct encoder's calling convention and compared "
-          "byte-for-byte with harness/thriftspec; 'marshal' (30%) - Marshal of a tgen struct value vs thriftspec's encoding of the content read off the value by "
-          "reflection (values with multi-entry maps: thriftspec-decoded, compared as content and re-encoded to the same bytes); 'readers' (20%) - thriftspec bytes with "
+          "byte-for-byte with harness/thriftspec; 'marshal' (27%) - Marshal of a tgen struct value vs thriftspec's encoding of the content read off the value by "
+          "reflection (values with multi-entry maps: thriftspec-decoded, compared as content and re-encoded to the same bytes); 'readers' (18%) - thriftspec bytes with "
           "long field/list headers where a short form exists, rotated/reversed field order and the other binary message-header form, read back through the Reader "
-          "methods; 'unmarshal' (20%) - the same alternatives given to Unmarshal of a tgen type. Protocol: binary strict 25%, non-strict 25%, compact 50%. Each clause "
+          "methods; 'unmarshal' (18%) - the same alternatives given to Unmarshal of a tgen type. Protocol: binary strict 25%, non-strict 25%, compact 50%. Each clause "
           "of the specification that the library is listed (known_findings.json, status known) to deviate from is replaced, on the expected side only, by the library's "
           "variant (thriftspec.Dialect) so that all other clauses stay compared, and every case whose bytes depend on it is counted in excluded_known. Of the seven "
           "deviations found six are repaired in /repo (listed fixed, compared against the unmodified specification, witnesses run as regression cases); only "
           "KF-C13-005 (binary type ids) is still known and normalised. "
-          "Non-trivial = content with >= 1 container or >= 3 fields; distinct = FNV-64 of the serialised case.",
+          "Non-trivial = content with >= 1 container or >= 3 fields, or a sequence of >= 3 items; distinct = FNV-64 of the serialised case.",
      quick=dict(shards=16, scale=1, timeout=600),
      thorough=dict(shards=16, scale=3, timeout=3000),
      technique="differential property-based testing (rapid) against a transcription of the Apache Thrift binary and compact protocol specifications "
